@@ -1,9 +1,13 @@
 --------------------------- MODULE Trace_ChangeCache ---------------------------
-(* Validation of traces recorded from the real db.changeCache (harness/db/c08_changecache_test.go).
+(* Validation of traces recorded from the real db.changeCache: by the harness (harness/db/c08_changecache_test.go:
+   sequential replay; concurrent delivery linearized by hook H2 under changeCache.lock) and from the repository's own
+   tests run unmodified with hook H2 (checks/C08.py existing_tests; cfgs *_any: real clocks, so WHEN a gap is skipped is
+   not judged, and "star"/"lls" are derived from the forwards because the hook does not read the channel cache).
    All sequences are offsets from the cache's initialSequence (the harness subtracts it).
    Lines (post = the REAL state after the call, read under changeCache.lock):
      {a:"Reset", beh, mn, w, base, wiring, <post>}        new cache; mn = CachePendingSeqMaxNum
-     {a:"Arrive", seq, end:0, kind, old, <post>}           processEntry / releaseUnusedSequence / processPrincipalDoc
+     {a:"Arrive", seq, end:0, kind, old, [sk], <post>}     processEntry / releaseUnusedSequence / processPrincipalDoc
+                                                           (sk = the caller passed LogEntry.Skipped = true: DocChanged, recent_sequences)
      {a:"Range",  seq, end, kind:"unused", old, <post>}    releaseUnusedSequenceRange (seq < end)
      {a:"Doc", seq, unused:[..], recent:[..], old, <post>}  DocChanged with a forged document feed event
      {a:"Tick", <post>}   {a:"Abandon", <post>}
@@ -18,6 +22,7 @@ EXTENDS ChangeCache, TraceLib
 VARIABLE l
 tvars == <<vars, l>>
 
+SkIn(r) == IF Has(r, "sk") THEN r.sk ELSE FALSE
 E(r) == [seq |-> r.seq, end |-> r.end, kind |-> r.kind, old |-> r.old]
 LSet(x) == {x[i] : i \in 1..Len(x)}
 RECURSIVE LBagFrom(_, _, _)
@@ -62,7 +67,7 @@ PNext == Reset \/ PArrive \/ PRange \/ PDoc \/ PTick \/ PAbandon \/ PConc
 PSpec == TInit /\ [][PNext]_tvars
 
 (* pass C: each logged step is an instance of the corresponding action, from the previous REAL state *)
-CArrive  == Ev("Arrive")  /\ ImplArrive(E(Trace[l]))      /\ Logged /\ GhostArrive(E(Trace[l]))      /\ UNCHANGED hist
+CArrive  == Ev("Arrive")  /\ (\E r \in ArriveFrom(Cur, E(Trace[l]), SkIn(Trace[l])) : SetImpl(r)) /\ Logged /\ GhostArrive(E(Trace[l]))      /\ UNCHANGED hist
 CRange   == Ev("Range")   /\ ImplArriveRange(E(Trace[l])) /\ Logged /\ GhostArriveRange(E(Trace[l])) /\ UNCHANGED hist
 CDoc     == Ev("Doc")     /\ ImplDoc(D(Trace[l]))         /\ Logged /\ GhostDoc(D(Trace[l]))         /\ UNCHANGED hist
 CTick    == Ev("Tick")    /\ ImplTick                     /\ Logged /\ GhostTick                     /\ UNCHANGED hist
